@@ -68,7 +68,8 @@ func (s *Snapshot) Diff(n ast.Node, cl Changelog) *Snapshot {
 			Pos: s.value.Pos(),
 			End: s.value.End(),
 		},
-		cl: cl,
+		cl:       cl,
+		compared: make(comparisons),
 	}
 
 	v := snapshot(reflect.ValueOf(n).Convert(s.value.Type()), nil)
@@ -83,6 +84,9 @@ type changeFinder struct {
 	Region
 
 	cl Changelog
+
+	// Results of the comparisons of nodes made so far.
+	compared comparisons
 }
 
 func (f changeFinder) unchanged(from, to *value) {
@@ -269,7 +273,7 @@ func (f changeFinder) walkSlice(from, to *value) bool {
 		return equal
 	}
 
-	es := diffNodes(from, to)
+	es := f.compared.diffNodes(from, to)
 
 	regions := make([]Region, from.Len())
 	for i, n := range from.Children {
@@ -346,9 +350,9 @@ func (f changeFinder) walkSlice(from, to *value) bool {
 // considered modifications of each other only between those. Otherwise, a
 // node that merely resembles the new neighbor of a node that went away is
 // paired with it, and the unchanged node after it is reported as deleted.
-func diffNodes(from, to *value) diff.EditScript {
+func (cs comparisons) diffNodes(from, to *value) diff.EditScript {
 	compare := func(i, j int) diff.Result {
-		return compareNodes(from.Children[i], to.Children[j])
+		return cs.compareNodes(from.Children[i], to.Children[j])
 	}
 
 	same := diff.Difference(from.Len(), to.Len(), func(i, j int) diff.Result {
@@ -386,12 +390,30 @@ func diffNodes(from, to *value) diff.EditScript {
 	return es
 }
 
-type nodeComparer struct{ diff.Result }
+// comparisons remembers how similar the nodes compared so far are.
+//
+// Finding the edit script for a list compares its elements more than once,
+// and comparing two nodes means finding the edit scripts for the lists
+// inside them. Without a memory that takes time exponential in the depth to
+// which lists are nested.
+type comparisons map[[2]*value]diff.Result
 
-func compareNodes(from, to *value) diff.Result {
-	var c nodeComparer
+func (cs comparisons) compareNodes(from, to *value) diff.Result {
+	key := [2]*value{from, to}
+	if r, ok := cs[key]; ok {
+		return r
+	}
+
+	c := nodeComparer{compared: cs}
 	c.Walk(from, to)
+	cs[key] = c.Result
 	return c.Result
+}
+
+type nodeComparer struct {
+	diff.Result
+
+	compared comparisons
 }
 
 func (c *nodeComparer) Walk(from, to *value) {
@@ -434,7 +456,7 @@ func (c *nodeComparer) Walk(from, to *value) {
 		}
 
 		es := diff.Difference(from.Len(), to.Len(), func(i, j int) diff.Result {
-			result := compareNodes(from.Children[i], to.Children[j])
+			result := c.compared.compareNodes(from.Children[i], to.Children[j])
 			results[i][j] = result
 			return result
 		})
